@@ -61,7 +61,7 @@ Canon(k) == IF k = 0 THEN (IF 0 \in pre THEN << PreE(0) >> ELSE << >>)
             ELSE Canon(k - 1) \o << U(k) >> \o (IF k \in pre THEN << PreE(k) >> ELSE << >>)
 
 Stages ==
-    CASE Kind = "tempo" -> << "H" >>
+    CASE Kind = "tempo" -> << "H", "C" >>                             \* "C": the user's bath correlation function
       [] Kind = "mf"    -> << "deriv", "H", "H2", "rk1", "rk2" >>     \* "H2": Hamiltonian of a second system
       [] OTHER          -> << >>
 
@@ -115,6 +115,9 @@ IterFail ==
         /\ LET stage == Stages[i] IN
            IF Kind = "tempo" /\ "StepBeforeEval" \in Devs
            THEN step' = step + 1 /\ UNCHANGED <<net, rec>>            \* counter advanced, network not
+           ELSE IF Kind = "tempo" /\ stage = "C" /\ "HalfStepBeforeCorr" \in Devs
+           THEN net' = net \o << <<"half", step + 1>> >> /\ UNCHANGED <<step, rec>>   \* half a step applied before the
+                                                                                     \* correlation function is evaluated
            ELSE IF Kind = "mf" /\ stage \in {"rk1", "rk2"} /\ "MFMutateBeforeField" \in Devs
            THEN net' = net \o << U(step + 1) >> /\ UNCHANGED <<step, rec>>   \* networks advanced, counter not
            ELSE UNCHANGED <<step, net, rec>>
